@@ -11,7 +11,7 @@ import re
 
 from ..engine import rule, run_property
 from ..model import Undecided
-from ..cfg import (same, dotted, call_name, is_call, simple_name, unparse, const_value, contains, find_all, enclosing,
+from ..cfg import (cexpr, same, dotted, call_name, is_call, simple_name, unparse, const_value, contains, find_all, enclosing,
                    enclosing_stmt, implied, all_atoms)
 from ..flow import Canon, Defs, depends, consteval, try_const, NotConst, fmt_all_numeric
 from ..decide import expr_table, table, ret_kind
@@ -385,7 +385,10 @@ def c05d(ctx):
                           fail='level database chosen by %s, which is not coord[2] of the forwarded tile' % unparse(arg))
         gl = ctx.fn('%s:%s._get_level' % (rel, cname))
         defs = Defs(gl.node)
-        fnames = [v for n, ds in defs.defs.items() if n.endswith('_filename') for v, sel in ds]
+        # the file handed to the per-level cache that is stored under self.<table>[level]: closed form of the first constructor argument
+        ctor = [st.value for st in gl.walk() if isinstance(st, ast.Assign) and isinstance(st.targets[0], ast.Subscript) and
+                same(st.targets[0].slice, 'level') and isinstance(st.value, ast.Call) and st.value.args]
+        fnames = [cexpr(c.args[0]) for c in ctor]
         ok = bool(fnames) and all(contains(v, lambda x: isinstance(x, ast.Name) and x.id == 'level') for v in fnames)
         ctx.check(ok, '%s._get_level:file-per-level' % cname, 'level database file name is a function of the level', gl)
         keys = [n for n in gl.walk() if isinstance(n, ast.Subscript) and isinstance(n.ctx, ast.Store)]
